@@ -56,6 +56,7 @@ type UserField struct {
 // UserStruct is one generated user-defined message with the expectations computed from the model.
 type UserStruct struct {
 	Msg       message.Message
+	MayRefuse bool // uses an enum wire type (int16, int64) the library may refuse at initialization
 	DefName   string
 	Fields    []UserField
 	WantCRC   byte
